@@ -104,9 +104,11 @@ theorem C15_hyperslab_applied_or_rejected (b : Base) (sl : List PSlice) :
   · rename_i h; exact .inr ⟨h, rfl⟩
 
 /-- what `check_hyperslab` accepts on one axis, spelled out on the parsed hyperslab `[a:k:b]`
-    (start `a`, stop `b + 1`, step `k`): `0 ≤ a < N`, `a ≤ b`, `k ≥ 1` — `b` may exceed `N - 1` -/
+    (start `a`, stop `b + 1`, step `k`): `0 ≤ a < N` (or `a = 0` on an axis of length 0: the whole, empty, axis),
+    `a ≤ b`, `k ≥ 1` — `b` may exceed `N - 1` -/
 theorem C15_valid_axis (N : Nat) (a k b : Int) :
-    validSl N ⟨some a, some (b + 1), some k⟩ = true ↔ (0 ≤ a ∧ a < N ∧ a ≤ b ∧ 1 ≤ k) := by
+    validSl N ⟨some a, some (b + 1), some k⟩ = true ↔
+      (0 ≤ a ∧ (a < N ∨ (N = 0 ∧ a = 0)) ∧ a ≤ b ∧ 1 ≤ k) := by
   simp only [validSl, Option.getD_some, decide_eq_true_eq]
   omega
 
